@@ -445,6 +445,20 @@ def scanM (e : Env) (si : SvcInfoFn) (ws : List WDgram) : List Cfg :=
 def scanU (e : Env) (si : SvcInfoFn) (nq : Nat) (hosts : List Nat) (ws : List WDgram) : List Cfg :=
   results e si (handled e (ucastResponses e nq hosts (decodeU ws)))
 
+/-- The unicast path has NO barrier between a host's records and the caller of the scan:
+    `UnicastDnsSdClientProtocol.get_response` calls `self.parser.parse()` after the last answer,
+    `UnicastMdnsScanner._get_services` catches `asyncio.TimeoutError` only, and `process` joins the
+    hosts with `asyncio.gather(...)` without `return_exceptions` — so if `ServiceParser.parse` raised
+    on the records some host sent (`raises h`), `discover()` / `pyatv.scan(hosts=…)` would raise and
+    no host would be returned.  (Multicast: every datagram is parsed once on its own inside
+    `datagram_received`, behind `ReceiveDelegate`'s barrier, before it is kept.)  `scanU` is this
+    function under the fact that the pinned `parse` raises on no record content
+    (`except ValueError: continue` around `split_name`, dict/first-element reads only behind
+    membership tests); the harness feeds ~150 hostile record contents through the real path. -/
+def scanUGather (e : Env) (si : SvcInfoFn) (nq : Nat) (hosts : List Nat) (ws : List WDgram)
+    (raises : Nat → Bool) : Option (List Cfg) :=
+  if hosts.any raises then none else some (scanU e si nq hosts ws)
+
 /-- handled services of one multicast source / one unicast host -/
 def hdM (e : Env) (ws : List WDgram) (s : Nat) : List Hd := hdOf e (mcastResp e (ws.map decodeM) s)
 def hdU (e : Env) (nq : Nat) (ws : List WDgram) (h : Nat) : List Hd := hdOf e (ucastResp e nq (decodeU ws) h)
